@@ -32,6 +32,9 @@ pub enum Part {
     AllIdx, // [*]
     Idx(i32),
     Filter(Cnf),
+    /// `[ name | clauses ]`: a filter over the entries of a map that also captures the keys of the
+    /// selected entries in the variable `name`
+    CapFilter(String, Cnf),
     /// `[ keys == <lit> ]` / `[ keys in [..] ]`
     KeysFilter { op: BinOp, neg: bool, rhs: Lit },
 }
@@ -335,6 +338,14 @@ pub fn print_parts(parts: &[Part], ind: &str, out: &mut String) {
                 print_cnf(cnf, &ind2, out);
                 out.push_str(" ]");
             }
+            Part::CapFilter(name, cnf) => {
+                out.push_str("[ ");
+                out.push_str(name);
+                out.push_str(" | ");
+                let ind2 = format!("{}    ", ind);
+                print_cnf(cnf, &ind2, out);
+                out.push_str(" ]");
+            }
             Part::KeysFilter { op, neg, rhs } => {
                 out.push_str("[ keys ");
                 out.push_str(binop_text(*op, *neg));
@@ -598,7 +609,7 @@ pub fn file_of(rules: Vec<Rule>) -> File {
 pub fn visit_cnfs(file: &mut File, f: &mut dyn FnMut(&mut Cnf)) {
     fn in_query(q: &mut Query, f: &mut dyn FnMut(&mut Cnf)) {
         for p in q.parts.iter_mut() {
-            if let Part::Filter(c) = p {
+            if let Part::Filter(c) | Part::CapFilter(_, c) = p {
                 f(c);
                 in_cnf(c, f);
             }
